@@ -35,6 +35,9 @@ pub const C08_SIGS: &[(&str, &str, &str, &str)] = &[
     ("align8", "", "a: u32, b: u32, c: u32, d: u32, e: u32", "u64"),
     ("align4", "", "a: u8, b: u8, c: u8, d: u8, e: u8", "f32"),
     ("align8-str", "", "a: u8, s: string, b: u8, c: u16, d: u8", "tuple<u8, f64>"),
+    // more than 16 flat parameters (passed through memory) with payload-carrying variants among them
+    ("flat17-opt", "", "a0: u64, a1: u64, a2: u64, a3: u64, a4: u64, a5: u64, a6: u64, a7: u64, a8: u64, a9: u64, a10: u64, a11: u64, a12: u64, a13: u64, a14: u64, a15: u64, tail: option<u64>", "u64"),
+    ("flat17-var", "", "a0: u64, a1: u64, a2: u64, a3: u64, a4: u64, a5: u64, a6: u64, a7: u64, a8: u64, a9: u64, a10: u64, a11: u64, a12: u64, a13: u64, r: result<string, u32>, o: option<list<u8>>", "u32"),
     // borrows of an imported resource lent to the export: dropped before task.return / before returning
     ("borrow", "resource thing { constructor(a: u32); }", "b: borrow<thing>, n: u32", ""),
     ("borrow-ret", "resource thing { constructor(a: u32); }", "b: borrow<thing>, c: borrow<thing>, l: list<u8>", "u32"),
